@@ -609,7 +609,7 @@ CLENS = [0, 1, 7, 8, 100, 1900, 2048, 5000]
 
 
 NASTY_VALS = [b"x", b"y", b"T" * 200, b"T" * 182 + b"z", b"", b"x:y", b"a]b", b"q\"uote", "é".encode(), b"x\x00"]
-LETTERS = ["t", "p", "e", "q", "r", "client", "-", "tt"]
+LETTERS = ["t", "p", "e", "q", "r", "client", "-", "tt", "E", "T", "K"]
 
 
 def u_random(seed, n=14, nauthors=2, param_bias=True):
@@ -623,7 +623,7 @@ def u_random(seed, n=14, nauthors=2, param_bias=True):
     for i in range(1, n + 1):
         au = rnd.randint(1, nauthors)
         r = rnd.random()
-        ts = rnd.choice([10, 10, 11, 12, 15, 20, 20, 30, 1900000000])
+        ts = rnd.choice([0, 10, 10, 11, 12, 15, 20, 20, 30, 1900000000])
         if r < 0.30:
             kind = rnd.choice([30000, 30000, 39999, 30001])
             dv = rnd.choice(NASTY_D + [b"x:y", b":"])
@@ -643,8 +643,10 @@ def u_random(seed, n=14, nauthors=2, param_bias=True):
             kind = rnd.choice([0, 3, 10000, 19999])
             tags = []
         elif r < 0.65:
-            kind = rnd.choice([1, 4, 9999, 40000, 1059, 65535, 62])
+            kind = rnd.choice([1, 4, 9999, 40000, 1059, 65535, 62, 6, 16, 7])
             tags = []
+            if kind in (6, 16, 7) and i > 1:
+                tags.append(["e", ("ev", rnd.randint(1, i - 1))])   # a repost / reaction referring to an earlier event
             if kind == 62:
                 tags.append(["relay", "ALL_RELAYS"])
             if kind in (1, 40000) and rnd.random() < 0.3:
